@@ -235,82 +235,8 @@ def compare_cases3(prop, cases, imports, chk, extra):
     return sorted(a), sorted(b), sorted(c), errors
 
 
-# ------------------------------------------------------------------------------------ C15
-class C15(SeqProp):
-    pid = "C15"
-    spec_import = "Require Import PV.Spec.SpecC15."
-    spec_fn = "spec_c15"
-    rule = ("each scenario is a group of 2-6 Desc::new calls over adversarial string pools (shared prefixes/suffixes, empty strings, "
-            "boundary-shifted name/value splits, reordered constant labels, the FNV collision pair); non-trivial = at least two "
-            "descriptors were accepted; distinct = distinct scenario text")
-    assumptions = ["equality of identities is up to collisions of the 64-bit hash (granted by the property)",
-                   "HashMap iteration order is exercised through fresh maps per call, not controlled"]
-
-    def gen(self, r, tier):
-        n = 400 if tier == "quick" else 4000
-        out = []
-        for _ in range(n):
-            ops = []
-            base_name = gens.metric_name(r, 0.95)
-            base_help = gens.help_text(r, 0.95)
-            keys = [gens.label_name(r, 0.95) for _ in range(r.randint(0, 3))]
-            vals = [gens.label_value(r) for _ in keys]
-            vars_ = [gens.label_name(r, 0.95) for _ in range(r.randint(0, 3))]
-            base = (base_name, base_help, vars_, list(zip(keys, vals)))
-            ops.append(("OpDesc",) + base)
-            for _ in range(r.randint(1, 5)):
-                name, help_, vs, cs = base[0], base[1], list(base[2]), list(base[3])
-                k = r.random()
-                if k < 0.2:
-                    r.shuffle(cs)                                  # same descriptor, another insertion order
-                elif k < 0.4 and cs:
-                    # shift a boundary between name and first value / between two values (in name order)
-                    cs_sorted = sorted(cs)
-                    if r.random() < 0.5 or len(cs_sorted) < 2:
-                        j = name + cs_sorted[0][1]
-                        a, b = r.choice(gens.split_variants(j))
-                        name = a; cs_sorted[0] = (cs_sorted[0][0], b)
-                    else:
-                        i = r.randrange(len(cs_sorted) - 1)
-                        j = cs_sorted[i][1] + cs_sorted[i + 1][1]
-                        a, b = r.choice(gens.split_variants(j))
-                        cs_sorted[i] = (cs_sorted[i][0], a); cs_sorted[i + 1] = (cs_sorted[i + 1][0], b)
-                    cs = cs_sorted; r.shuffle(cs)
-                elif k < 0.5:
-                    r.shuffle(vs)                                  # variable names as a set
-                elif k < 0.6 and (vs or cs):
-                    # move a name between the constant and the variable labels
-                    if vs and r.random() < 0.5:
-                        v = vs.pop(r.randrange(len(vs))); cs.append((v, gens.label_value(r)))
-                    elif cs:
-                        c = cs.pop(r.randrange(len(cs))); vs.append(c[0])
-                elif k < 0.7:
-                    # shift the help / first-name boundary of the dimension signature
-                    names = sorted([c[0] for c in cs])
-                    if names:
-                        j = help_ + names[0]
-                        a, b = r.choice(gens.split_variants(j))
-                        help_ = a
-                        cs = [((b if c[0] == names[0] else c[0]), c[1]) for c in cs]
-                elif k < 0.8:
-                    help_ = gens.help_text(r, 0.95)
-                elif k < 0.9:
-                    if cs:
-                        i = r.randrange(len(cs)); cs[i] = (cs[i][0], gens.label_value(r))
-                    else:
-                        name = gens.metric_name(r, 0.95)
-                else:
-                    name = r.choice(["indbfqeysbnpsf", "ivltldgmoctybd"]); cs = []
-                ops.append(("OpDesc", name, help_, vs, cs))
-            out.append(ops)
-        return out
-
-    def nontrivial(self, ops, o):
-        return o.count("ODesc (Some") >= 2
-
-
-REG = {"C15": C15}
-
-
 def get(pid):
-    return REG[pid]()
+    """each property lives in tools/p_<pid>.py and defines a class named <pid>"""
+    import importlib
+    m = importlib.import_module("p_" + pid)
+    return getattr(m, pid)()
